@@ -2189,6 +2189,12 @@ impl<'a> CompilerState<'a> {
                 Rule::func_decl => {
                     self.compile_func_decl(pair.into_inner())?;
                 }
+                Rule::func_vec_decl => {
+                    return Err(self.syntax_error(
+                        "Arrays of function pointers are not implemented",
+                        pair.as_span().start(),
+                    ));
+                }
                 Rule::included_assembler => {
                     //debug!("Assembler: {:?}", pair);
                     let str = pair.into_inner().next().unwrap().as_str();
